@@ -25,3 +25,5 @@ int replay_fz(const std::string &caseid);
 void prop_c17(hz::Ctx &);
 void prop_c19(hz::Ctx &);
 int replay_fi(const std::string &caseid);
+void prop_c20(hz::Ctx &);
+int replay_cli(const std::string &caseid);
